@@ -12,6 +12,7 @@ re-slice outside `[0, len)` is the outcome `.panic`.  All theorems quantify over
 *every* `src : List UInt8` and every type number `t` (no bound).
 -/
 import Mqtt.Proofs.CodecWire
+import Mqtt.Proofs.XlateVarint
 
 set_option linter.unusedSimpArgs false
 set_option maxRecDepth 8192
@@ -73,5 +74,20 @@ example : decodeNew 1 [] = .err := by decide
 example : decodeNew 4 [0x40, 0x00] = .err := by decide
 example : decodeNew 10 [0xa2, 0x80, 0xff, 0x91, 0xe7, 0xff, 0xea, 0x82, 0x80, 0x80, 0xff, 0x80, 0x01] = .err := by decide
 example : decodeNew 3 [0x30, 0x03, 0x00, 0x09, 0x61, 0x62, 0x63, 0x64] = .err := by decide
+
+/-! ## Tie to the Go source: the remaining-length decoder
+
+`Mqtt.Generated.Xlate.Binary.Uvarint` is produced from
+`$GOROOT/src/encoding/binary/varint.go` by `extract/cmd/xlate` on every check. -/
+
+/-- the standard library's `binary.Uvarint` (as found in the toolchain that builds the library) is
+the model's `uvarint` on every byte string: same value (the model reduces modulo 2^64), same count
+(0: buffer too small, negative: overflow) -/
+theorem C04_Uvarint_is_source (buf : List UInt8) :
+    Mqtt.Generated.Xlate.Binary.Uvarint buf = (UInt64.ofNat (uvarint buf).1, (uvarint buf).2) ∧
+    (Mqtt.Generated.Xlate.Binary.Uvarint buf).1.toNat = (uvarint buf).1 :=
+  ⟨Mqtt.Proofs.XlateVarint.uvarint_is_source buf, Mqtt.Proofs.XlateVarint.uvarint_is_source_val buf⟩
+
+example : Mqtt.Generated.Xlate.Binary.Uvarint [0xc1, 0x02, 0xff] = (321, 2) := by decide
 
 end Mqtt.Properties.C04
